@@ -35,7 +35,8 @@ MANIFEST = {
     "technique": "Lean 4 invariant proof over an executable file-system model; model tied by regenerated tables and a differential rig",
     "design_ref": "5/C15",
 }
-MODULES = ["PrimaiteModel.Props.C15", "PrimaiteModel.Props.C15Api", "PrimaiteModel.Props.C15Node"]
+MODULES = ["PrimaiteModel.Props.C15", "PrimaiteModel.Props.C15Api", "PrimaiteModel.Props.C15Node", "PrimaiteModel.Props.C15Verbs",
+           "PrimaiteModel.Props.C15Actions", "PrimaiteModel.Props.C15Inventory"]
 EXE = "drv_c15"
 
 
@@ -119,6 +120,14 @@ def run(ctx: Ctx):
             ctx.count(f"exhaustive:{fam}:alphabet={len(alpha)}:depth={depth}", len(alpha) ** depth)
             for k, ops in enumerate(rig.exhaustive(alpha, depth)):
                 yield f"exh{fam}{depth}:{k}", {"surface": "fs", "restore_duration": 1 if fam != "B" else None, "ops": ops}
+        # state-graph families: every operation out of every distinct model state reachable within `depth - 1` operations
+        for fam, alpha, depth, rd in (("GA", rig.core_alphabet(), ctx.scale(6, 8), 1), ("GB", rig.full_alphabet(), ctx.scale(3, 4), None)):
+            stats: dict = {}
+            for k, ops in enumerate(rig.graph_cases(alpha, depth, rd, lambda ls: run_driver(EXE, ls), stats)):
+                yield f"graph{fam}{depth}:{k}", {"surface": "fs", "restore_duration": rd, "ops": ops}
+            for d, st in stats.items():
+                ctx.count(f"graph:{fam}:alphabet={len(alpha)}:depth={d}:transitions", st["transitions"])
+                ctx.count(f"graph:{fam}:alphabet={len(alpha)}:depth={d}:states_so_far", st["states_so_far"])
         depth = ctx.scale(3, 4)
         ctx.count(f"exhaustive:C:alphabet={len(rig.api_alphabet())}:depth={depth}", len(rig.api_alphabet()) ** depth)
         for k, ops in enumerate(rig.exhaustive(rig.api_alphabet(), depth)):
@@ -143,7 +152,7 @@ def run(ctx: Ctx):
         for k in range(ctx.scale(700, 12000)):
             yield f"net:{k}", rig.gen_net_case(rng4, max_ticks=ctx.scale(10, 14))
 
-    state = {"agree": 0, "total": 0, "reported": 0, "t_impl": 0.0, "t_model": 0.0}
+    state = {"agree": 0, "total": 0, "reported": 0, "t_impl": 0.0, "t_model": 0.0, "actions": set()}
 
     def process(cases):
         # implementation side, then ONE driver run per chunk
@@ -172,9 +181,14 @@ def run(ctx: Ctx):
             ctx.count("surface:" + case["surface"])
             n = len(case["ops"])
             ctx.count("len:" + ("1-5" if n <= 5 else "6-15" if n <= 15 else "16-30" if n <= 30 else "31+"))
+            via_actions = case["surface"] == "action" or bool((case.get("node") or {}).get("actions"))
             for op, s in zip(case["ops"], statuses):
                 ctx.count("op:" + op[0])
                 ctx.count(f"answer:{op[0]}:{s}")
+                act = rig.action_for(op) if via_actions else None
+                if act is not None:
+                    ctx.count(f"action:{act[0]}:{s}")
+                    state["actions"].add(act[0])
             if ci == cm and not any(verdicts):
                 state["agree"] += 1
                 if name.startswith("gen"):
@@ -192,6 +206,9 @@ def run(ctx: Ctx):
             chunk = []
     if chunk:
         process(chunk)
+    registered = rig.registered_file_actions()
+    ctx.oblige("rig:every registered file/folder action is driven through form_request", "correspondence",
+               registered == state["actions"], f"registered {sorted(registered)}; driven {sorted(state['actions'])}")
     ctx.notes.append(f"implementation side {state['t_impl']:.1f}s, model side {state['t_model']:.1f}s")
     ctx.oblige("rig:R-fs agrees on every trace and the oracle holds", "correspondence", state["agree"] == state["total"],
                f"{state['total'] - state['agree']} of {state['total']} traces disagree")
